@@ -148,6 +148,16 @@ func runFrames(res *lp.Result, prop string) {
 					res.Count("compression/" + cs.name)
 					res.Count(fmt.Sprintf("flags/%02x", uint8(orig.Header.Flags)))
 					res.Case(hx(enc), len(enc) > headerLen(v)+4)
+					if err != nil && cs.name == "lz4" {
+						// is it the third-party block codec that fails on this very body (known finding), or the repository's code?
+						plain := orig.DeepCopy()
+						plain.Header.Flags = plain.Header.Flags.Remove(primitive.HeaderFlagCompressed)
+						var pb bytes.Buffer
+						if e2 := frame.NewRawCodec().EncodeFrame(plain, &pb); e2 == nil && pb.Len() > headerLen(v) && lz4LibraryFails(pb.Bytes()[headerLen(v):]) {
+							res.Add(lp.Finding{Kind: "violation", What: lz4LibraryWhat + ": encoded frame does not decode", Input: id})
+							continue
+						}
+					}
 					if err != nil {
 						res.Add(lp.Finding{Kind: "violation", What: "encoded frame does not decode: " + err.Error(), Input: id + " bytes=" + hx(enc)})
 						ask("frame dec "+flagOf(cs)+" "+hx(all), "err", id)
